@@ -173,9 +173,8 @@ func (g *guard) ReleaseTreasureGuard(guardID ID) {
 
 	if len(g.waitForUnlock) > 0 && g.waitForUnlock[0] == int64(guardID) {
 		g.waitForUnlock = g.waitForUnlock[1:]
-		if len(g.waitForUnlock) == 0 {
-			atomic.StoreInt64(&g.largestGuardID, 0)
-		}
+		// Guard IDs are never reused: resetting largestGuardID here would hand a later
+		// caller the same ID, so a duplicate or stale release of the old ID would pop it.
 		g.cond.Broadcast()
 		return
 	}
